@@ -38,8 +38,20 @@ func main() {
 	case "mutants":
 		os.Exit(cmdMutants(os.Args[2:]))
 	case "list":
+		used := map[string]bool{}
 		for _, id := range sortedKeys(properties) {
 			fmt.Printf("%s: %s\n", id, strings.Join(properties[id].Rules, " "))
+			for _, r := range properties[id].Rules {
+				if i := strings.Index(r, "@"); i >= 0 {
+					r = r[:i]
+				}
+				used[r] = true
+			}
+		}
+		for _, r := range sortedKeys(rules) {
+			if !used[r] {
+				fmt.Printf("UNREFERENCED rule (serves no property): %s\n", r)
+			}
 		}
 		os.Exit(0)
 	default:
